@@ -184,6 +184,12 @@ func recipeFor(p *Program, o *Obligation) *replayRecipe {
 		r.password = true
 		return r
 	}
+	if strings.HasPrefix(key, "redis.(*Server).") || strings.HasPrefix(key, "redis.(*Conn).") {
+		// the framework's own command handlers and the connection object: the request scenarios (differential against HEAD)
+		r.arrTerm = ""
+		r.command = "PING"
+		return r
+	}
 	return nil
 }
 
@@ -480,6 +486,7 @@ func scenarioPortfolio(password bool) [][]string {
 			{respCmd("AUTH"), respCmd("HLEN", "k")},
 			{respCmd("AUTHX", "x"), respCmd("SUBSTR", "k", "0", "1")},
 			{respCmd("AUTH", "s3cret"), respCmd("SELECT", "3"), respCmd("GET", "a"), respCmd("AUTH", "wrong"), respCmd("GET", "b"), respCmd("SET", "c", "d")},
+			{respCmd("AUTH", "bob", "s3cret"), respCmd("GET", "a"), respCmd("AUTH", "s3cret"), respCmd("GET", "b")},
 		}
 	}
 	return [][]string{
@@ -495,6 +502,7 @@ func scenarioPortfolio(password bool) [][]string {
 		{respCmd("LPOP", "k", "abc"), respCmd("RPOP", "k", "1.5"), respCmd("LPOP", "k", "99999999999999999999"), respCmd("LINDEX", "k", "x"), respCmd("PING")},
 		{respCmd("ZREVRANGEBYSCORE", "z", "(3", "1"), respCmd("ZREVRANGEBYSCORE", "z", "3", "(1"), respCmd("ZRANGEBYSCORE", "z", "(1", "3"), respCmd("ZRANGE", "z", "(1", "3", "BYSCORE")},
 		{respCmd("DECRBY", "k", "-9223372036854775808"), respCmd("INCRBY", "k", "1"), respCmd("DECR", "k"), respCmd("APPEND", "k", "x"), respCmd("MGET", "a", "b", "c", "d")},
+		{respCmd("SELECT", "2"), respCmd("GET", "a"), respCmd("SELECT", "-1"), respCmd("GET", "b"), respCmd("SELECT", "99999999999999999999"), respCmd("GET", "c")},
 		{respCmd("SELECT", "5"), respCmd("GET", "a"), respCmd("SELECT", "abc"), respCmd("GET", "b"), respCmd("SELECT"), respCmd("GET", "c"), respCmd("SELECT", "2"), respCmd("GET", "d")},
 		{respCmd("set", "k", "v", "ex", "10"), respCmd("SET", "k", "v", "Px", "1500"), respCmd("set", "k", "v", "nx"), respCmd("SET", "k", "v", "KeepTTL")},
 		{respCmd("ZADD", "z", "1", "a", "2"), respCmd("ZADD", "z", "nan", "m"), respCmd("ZINCRBY", "z", "nan", "m"), respCmd("GET", "k")},
